@@ -19,7 +19,7 @@ func init() { register("C17", checkC17) }
 const pkgEVM = "ctrlers/vm/evm"
 
 func checkC17(w *World, r *Report) {
-	r.Explanation = "Structural clause of C17 (the synchronisation protocol between go-ethereum's StateDB and the native account ledger; equivalence with the reference EVM over all programs is out of reach): (E-0) every vm.StateDB method of the wrapper delegates to the same-named method of the embedded StateDB with its arguments in order, and the block context's CanTransfer/Transfer are balance >= amount / debit sender + credit recipient of the same amount; (E-1) every way an address enters the access list (AddAddressToAccessList, PrepareAccessList for sender, destination, precompiles and listed addresses; Prepare for sender and receiver) first copies nonce and balance from the native account (FindOrNewAccount(addr, exec)) into the state object and records the address with the current snapshot + 1; (E-2) Finish writes balance and nonce of every recorded address back and marks the account, then forgets the addresses; RevertToSnapshot forgets the addresses recorded after that snapshot before delegating; Snapshot records and returns the id; (E-3) failures revert to the pre-transaction snapshot (C05 A-4); (E-4) contract transactions and transfers to accounts with code are routed to the EVM (decision table); (E-5) the read-only call runs on a scratch state at the requested height with the immutable account handler and cannot reach a durable write; the per-block wrapper is built on the last committed root with the block's account handler."
+	r.Explanation = "Structural clause of C17 (the synchronisation protocol between go-ethereum's StateDB and the native account ledger; equivalence with the reference EVM over all programs is out of reach): (E-0) every vm.StateDB method of the wrapper delegates to the same-named method of the embedded StateDB with its arguments in order, and the block context's CanTransfer/Transfer are balance >= amount / debit sender + credit recipient of the same amount; (E-1) every way an address enters the access list (AddAddressToAccessList, PrepareAccessList for sender, destination, precompiles and listed addresses; Prepare for sender and receiver) first copies nonce and balance from the native account (FindOrNewAccount(addr, exec)) into the state object and records the address with the current snapshot + 1; (E-2) Finish writes balance and nonce of every recorded address back and marks the account, then forgets the addresses; RevertToSnapshot forgets the addresses recorded after that snapshot before delegating; Snapshot records and returns the id; (E-3) failures revert to the pre-transaction snapshot (C05 A-4); (E-4) contract transactions and transfers to accounts with code are routed to the EVM (decision table); (E-5) the read-only call runs on a scratch state at the requested height with the immutable account handler and cannot reach a durable write; the per-block wrapper is built on the last committed root with the block's account handler; (E-6) the native (precompiled) contracts the module registers never write through their input: the interpreter hands them a window of the calling contract's memory."
 	r.NotCovered = "equivalence with the reference EVM for all programs; go-ethereum internals; accounts the EVM touches without adding them to the access list (pre-Berlin rules are not active)."
 	e0(w, r)
 	e1(w, r)
@@ -41,12 +41,14 @@ func checkC17(w *World, r *Report) {
 		}
 	}
 	e5(w, r)
+	e6(w, r)
 	r.Floor("E-0", 24, "delegating methods")
 	r.Floor("E-1", 6, "sync-in")
 	r.Floor("E-2", 5, "sync-out")
 	r.Floor("E-3", 3, "revert pairing")
 	r.Floor("E-4", 6, "routing rows")
 	r.Floor("E-5", 5, "read-only call and per-block wrapper")
+	r.Floor("E-6", 1, "native contracts")
 }
 
 var delegating = []string{"CreateAccount", "SubBalance", "AddBalance", "GetBalance", "GetNonce", "SetNonce", "GetCodeHash", "GetCode", "SetCode", "GetCodeSize",
@@ -332,27 +334,26 @@ func e5(w *World, r *Report) {
 	}
 	bb := needFn(r, "E-5", w, fref{pkgEVM, "EVMCtrler", "BeginBlock"})
 	if bb != nil {
-		var nw ssa.CallInstruction
-		for _, c := range w.callsTo(bb, fref{pkgEVM, "", "NewStateDBWrapper"}) {
-			nw = c
-		}
-		ok := nw != nil
-		if ok {
-			a := nw.Common().Args
-			ok = w.Canon(a[0]) == "recv.ethDB" && w.Canon(a[1]) == "recv.lastRootHash" && w.Canon(a[2]) == "p0.AcctHandler"
-			st := false
-			for _, fs := range w.fieldStores(bb) {
-				if fs.Field.Name() == "stateDBWrapper" && sameValue(fs.Val, extractOf(callValue(nw), 0)) {
-					st = true
+		// in BeginBlock or in a helper it calls (written in BeginBlock's terms)
+		ok := false
+		reNew := mustRe(`^evm\.NewStateDBWrapper\(recv\.ethDB, recv\.lastRootHash, p0\.AcctHandler, [^()]*\)#0$`)
+		for _, hf := range w.withModuleCallees(bb, 2) {
+			for _, fs := range w.fieldStores(hf) {
+				if fs.Field.Name() == "stateDBWrapper" && w.inCallerTerms(bb, hf, func() bool {
+					return w.Canon(fs.Addr) == "recv.stateDBWrapper" && reNew.MatchString(w.CanonDeep(fs.Val))
+				}) {
+					ok = true
 				}
 			}
-			ok = ok && st
 		}
 		r.Check(ok, "E-5", "BeginBlock:wrapper-on-last-root", "each block's EVM state is opened at the last committed root with the block's account handler", "the per-block EVM state is not opened at the last committed root with the block's account handler", fnSite(w, bb))
 		vm := false
-		for _, c := range CallsIn(bb) {
-			if callName(c.Common()) == "NewEVM" && len(c.Common().Args) >= 3 && w.Canon(c.Common().Args[2]) == "recv.stateDBWrapper" {
-				vm = true
+		for _, hf := range w.withModuleCallees(bb, 2) {
+			for _, c := range CallsIn(hf) {
+				if callName(c.Common()) == "NewEVM" && len(c.Common().Args) >= 3 && w.inCallerTerms(bb, hf, func() bool { return w.CanonDeep(c.Common().Args[2]) == "recv.stateDBWrapper" }) {
+					// the EVM built is the one the controller keeps
+					vm = true
+				}
 			}
 		}
 		r.Check(vm, "E-5", "BeginBlock:evm-on-wrapper", "the block's EVM runs on the wrapper (not on the bare StateDB)", "the block's EVM is not built on the wrapper", fnSite(w, bb))
@@ -360,6 +361,10 @@ func e5(w *World, r *Report) {
 	ev := needFn(r, "E-5", w, fref{pkgEVM, "EVMCtrler", "execVM"})
 	if ev != nil {
 		rs := w.findCallMatch(ev, mustRe(`^recv\.vmevm\.Reset\(core\.NewEVMTxContext\(.+\), recv\.stateDBWrapper\)$`))
+		if len(rs) != 1 {
+			// through accessors of the controller's fields
+			rs = w.findCallMatchI(ev, mustRe(`^recv\.vmevm\.Reset\(core\.NewEVMTxContext\(.+\), recv\.stateDBWrapper\)$`))
+		}
 		if len(rs) != 1 {
 			// in the helper that builds and applies the message for ExecuteTrx
 			if ex := w.Method(pkgEVM, "EVMCtrler", "ExecuteTrx"); ex != nil {
@@ -603,4 +608,111 @@ func (w *World) finishWriteBack(fin *ssa.Function) (okBalance, okNonce bool, why
 		return false, false, "no iteration writes balance and nonce back and marks the account"
 	}
 	return okBalance, okNonce, why
+}
+
+// E-6: the native contracts of the module leave their input alone. For CALL and
+// STATICCALL go-ethereum's interpreter passes Memory.GetPtr — a sub-slice of the
+// calling contract's memory whose capacity runs to the end of that memory — so an
+// append to (a slice of) the input, a copy into it or an element store changes the
+// caller's memory, which the reference EVM never does.
+func e6(w *World, r *Report) {
+	n := 0
+	for _, fn := range w.ModuleFuncs() {
+		if fn.Name() != "Run" || fn.Signature.Recv() == nil || fn.Blocks == nil || len(fn.Params) != 2 || w.FuncPkgPath(fn) != absPkg(pkgEVM) {
+			continue
+		}
+		if sl, ok := fn.Params[1].Type().Underlying().(*types.Slice); !ok || typeStr(sl.Elem()) != "byte" && typeStr(sl.Elem()) != "uint8" {
+			continue
+		}
+		rn, _ := types.Unalias(deref(fn.Signature.Recv().Type())).(*types.Named)
+		if rn == nil || methodOfNamed(w, rn, "RequiredGas") == nil {
+			continue
+		}
+		n++
+		bad := w.writesThroughSlice(fn, fn.Params[1], 0)
+		r.Check(bad == "", "E-6", "native-contract-input-read-only:"+w.FName(fn), "the native contract only reads its input (the window of the caller's memory it is handed)", "the native contract can write into the calling contract's memory: "+bad, fnSite(w, fn))
+	}
+	if n == 0 {
+		r.Undecided("E-6", "native-contracts", "no native contract (Run/RequiredGas) found in the EVM package although init registers one")
+	}
+}
+
+// writesThroughSlice: some instruction of fn may write into the backing array of the
+// slice parameter p: append to it or to a slice of it (capacity permitting, append
+// writes in place), copy into it, an element store, or handing it to a module
+// function that does one of these. What a library call returns for a derived
+// argument counts as derived (RightPadBytes returns its argument when long enough).
+func (w *World) writesThroughSlice(fn *ssa.Function, p ssa.Value, depth int) string {
+	derived := map[ssa.Value]bool{p: true}
+	isSl := func(v ssa.Value) bool {
+		_, ok := v.Type().Underlying().(*types.Slice)
+		return ok
+	}
+	for changed := true; changed; {
+		changed = false
+		for _, b := range fn.Blocks {
+			for _, in := range b.Instrs {
+				v, isV := in.(ssa.Value)
+				if !isV || derived[v] {
+					continue
+				}
+				hit := false
+				switch x := in.(type) {
+				case *ssa.Slice:
+					// a full slice expression caps the capacity: appends to it reallocate
+					hit = derived[x.X] && x.Max == nil
+				case *ssa.Phi:
+					for _, e := range x.Edges {
+						if derived[e] {
+							hit = true
+						}
+					}
+				case *ssa.ChangeType:
+					hit = derived[x.X]
+				case *ssa.Call:
+					if _, isB := x.Common().Value.(*ssa.Builtin); isB {
+						break
+					}
+					if cal := x.Common().StaticCallee(); cal != nil && isSl(x) {
+						for _, a := range x.Common().Args {
+							if derived[a] {
+								hit = true
+							}
+						}
+					}
+				}
+				if hit {
+					derived[v] = true
+					changed = true
+				}
+			}
+		}
+	}
+	for _, b := range fn.Blocks {
+		for _, in := range b.Instrs {
+			switch x := in.(type) {
+			case *ssa.Store:
+				if ia, ok := x.Addr.(*ssa.IndexAddr); ok && derived[ia.X] {
+					return "element store at " + w.InstrPos(in)
+				}
+			case *ssa.Call:
+				if bi, isB := x.Common().Value.(*ssa.Builtin); isB {
+					if (bi.Name() == "append" || bi.Name() == "copy") && len(x.Common().Args) > 0 && derived[x.Common().Args[0]] {
+						return bi.Name() + " into (a slice of) the input at " + w.InstrPos(in)
+					}
+					continue
+				}
+				if cal := x.Common().StaticCallee(); cal != nil && w.InModule(cal) && cal.Blocks != nil && depth < 2 && len(cal.Params) == len(x.Common().Args) {
+					for i, a := range x.Common().Args {
+						if derived[a] {
+							if why := w.writesThroughSlice(cal, cal.Params[i], depth+1); why != "" {
+								return why
+							}
+						}
+					}
+				}
+			}
+		}
+	}
+	return ""
 }
